@@ -627,6 +627,11 @@ func Reader(data any, selectors []any) (any, error) {
 										// decimals nor wrapped around beyond 2^63
 										copy[selector.GetKey()] = compare.Text(value)
 									}
+								case nil:
+									{
+										// a missing key is NULL, not the text "<nil>"
+										copy[selector.GetKey()] = nil
+									}
 								default:
 									{
 										copy[selector.GetKey()] = fmt.Sprintf("%v", value)
